@@ -342,7 +342,7 @@ def run(ctx):
         trace(ctx, b, "exh-und", ["mode=cases", "cases=" + fd["und"], "maps=1", "stride=%d" % (1 if thorough else 4)], "exh-und")
         trace(ctx, b, "exh-dir", ["mode=cases", "cases=" + fd["dir"], "maps=1", "stride=%d" % (2 if thorough else 8)], "exh-dir")
         trace(ctx, b, "exh-part", ["mode=cases", "cases=" + fd["part"], "maps=1", "stride=%d" % (1 if thorough else 3)], "exh-part")
-        trace(ctx, b, "random", ["mode=random", "count=%d" % (80 if thorough else 20), "maxn=40"], "random")
+        trace(ctx, b, "random", ["mode=random", "count=%d" % (48 if thorough else 20), "maxn=40"], "random")
         dcycles(ctx, b)
         chromatic(ctx, b)
         if thorough:     # the tomita pivot rule changes BronKerbosch (and through the clique bound, DsaturExact's start)
